@@ -36,6 +36,7 @@ import numpy as np
 
 from harness.common import Check, InfraError, ddmin
 from harness import c10_lib as L
+from harness import c10_strong as S
 from harness.c10_lib import (
     Circuit, PassData, UnitaryMatrix, CircuitGate, ConstantUnitaryGate,
     VariableUnitaryGate, CNOTGate, CZGate, CYGate, CHGate, SwapGate, HGate,
@@ -113,10 +114,7 @@ LEAN_GATES = {
 PY2LEAN = {type(g).__name__: n for n, g in LEAN_GATES.items()}
 
 
-def circ_desc(c: Circuit) -> dict:
-    return {'radixes': list(c.radixes),
-            'ops': [[repr(op.gate), list(op.location),
-                     [float(x) for x in op.params]] for op in c]}
+circ_desc = L.circ_desc
 
 
 def rebuild(radixes, ops):
@@ -520,14 +518,23 @@ def sametl_line(flat_a, flat_b, n):
 
 def blocked_circuit(ck: Check, n: int):
     """A random circuit, partly folded into CircuitGates (random regions via
-    the public fold API through QuickPartitioner / manual folds)."""
+    the public fold API through QuickPartitioner / manual folds), or
+    assembled from hand-made blocks at unsorted locations; 40 % of the base
+    circuits contain role gates (MPRY/MPRZ with every target, controlled
+    gates, CCX) at structured locations."""
     from bqskit.passes import QuickPartitioner, ScanPartitioner
-    c = L.rand_circuit(ck.rng, n, ck.rng.randrange(2, 14))
-    mode = ck.rng.randrange(4)
+    mode = ck.rng.randrange(5)
+    if mode == 4:
+        return S.built_blocks(ck.rng, n, ck.rng.randrange(2, 8))
+    if ck.rng.random() < 0.4:
+        c = S.role_circuit(ck.rng, n, ck.rng.randrange(2, 12))
+    else:
+        c = L.rand_circuit(ck.rng, n, ck.rng.randrange(2, 14))
+    widest = max([o.num_qudits for o in c] + [1])
     if n >= 2 and mode in (1, 2):
         k = ck.rng.randrange(1 if mode == 1 else 2, min(n, 3) + 1)
         part = (QuickPartitioner if ck.rng.random() < 0.5
-                else ScanPartitioner)(max(k, 2) if n >= 2 else 1)
+                else ScanPartitioner)(max(k, 2, widest) if n >= 2 else 1)
         c, _ = run_pass(part, c)
     if mode == 3:
         from bqskit.passes import GroupSingleQuditGatePass
@@ -585,7 +592,12 @@ def structural_cases(ck: Check, n: int, have_driver: bool):
 
     for i in range(n):
         w = ck.rng.choice([1, 2, 3, 3, 4, 4, 5])
-        c = blocked_circuit(ck, w)
+        # every blocked circuit also re-parameterised from outside, with a
+        # shared CircuitGate object, nested (c10_strong)
+        vkind = S.VARIANTS[i % 4]
+        c = S.variant(ck.rng, blocked_circuit(ck, w), vkind)
+        ck.bump('block_variant', vkind + (
+            ':stale' if S.stale_blocks(c) else ''))
         # --- UnfoldPass / CompressPass
         out, _ = run('UnfoldPass', P.UnfoldPass(), (), c)
         if out is not None:
@@ -726,9 +738,9 @@ def structural_cases(ck: Check, n: int, have_driver: bool):
         out, _ = run('FillSingleQuditGatesPass',
                      P.FillSingleQuditGatesPass(), (), cu, tol=1e-7)
         if out is not None:
-            mq_in = [(repr(o.gate), tuple(o.location)) for o in cu
+            mq_in = [(L.gate_tag(o.gate), tuple(o.location)) for o in cu
                      if o.num_qudits > 1]
-            mq_out = [(repr(o.gate), tuple(o.location)) for o in out
+            mq_out = [(L.gate_tag(o.gate), tuple(o.location)) for o in out
                       if o.num_qudits > 1]
             ok = (timelines([(g, l, ()) for g, l, p in L.flatten(cu)
                              if len(l) > 1], w)
@@ -778,11 +790,14 @@ def structural_cases(ck: Check, n: int, have_driver: bool):
             ('ExtractMeasurements', ExtractMeasurements(), lambda d: True),
             ('RestoreMeasurements', RestoreMeasurements(), lambda d: True),
         ):
-            if i >= max(3, n // 4):
+            if i >= max(4, n // 4):
                 break
             src = c.copy()
             if pname == 'StructureAnalysisPass':
                 src = c          # documented to unfold inside blocks only
+                if S.block_depth(c) >= 2:
+                    S.structure_case(ck, c, vkind)   # own signature
+                    continue
             out, d = run(pname, p, (), src)
             if out is None:
                 continue
@@ -1713,8 +1728,12 @@ def run(ck: Check, replaying: bool = False):
                 'no longer check (regenerated rule data or model changed): '
                 + (ck.proof_failure or '')[-1500:], {'rules': [
                     r['name'] for r in rules]}, found_input=False)
-    structural_cases(ck, 30 * mult, have_driver)
+    structural_cases(ck, 32 * mult, have_driver)
     mark('structural')
+    S.mgd_cases(ck, have_driver, thorough)
+    mark('mgd')
+    S.block_pass_cases(ck, rules, 16 * mult, thorough)
+    mark('blocks')
     if have_driver:
         scripted_tie(ck, 60 * mult)
     mark('scripted')
